@@ -218,8 +218,9 @@ pub struct ArrayAccessBuilder {
 
 impl SqlBuilder for ArrayAccessBuilder {
     fn to_sql(self: Box<Self>) -> ToSqlResult<String> {
+        // a subscript binds tighter than `->`: the subscripted expression goes in parentheses
         Ok(format!(
-            "({}[{}])",
+            "(({})[{}])",
             self.array.to_sql()?,
             self.member.to_sql()?
         ))
